@@ -131,6 +131,29 @@ also = {
 }
 for k, v in also.items():
     claimed[k]["technique"] += "; also: " + v
+# round 8 (DESIGN.md §8, Round 8)
+also8 = {
+ "C02": "no-prelude (a type system loaded by validator.LoadSchema × every profile and meta-name type-blind document), after-rule-edits (documents validated after ReplaceRule / RemoveRule + AddRule edits of the process-wide rule set)",
+ "C03": "string-chars (quoted-string bodies ≤3/4 over 20 characters at the edges of the UTF-8 lengths and of SourceCharacter); an escaped surrogate pair in the escape alphabet",
+ "C04": "positions behind strings with surrogate escapes (values undecided, extents judged); 4 faults whose offending member arrives through an extension in another file (23 + 5 faults)",
+ "C05": "a profile document with raw TAB / DEL / U+FFFD / U+FFFF / BOM / NBSP / U+3000 / U+2028 in strings and blank or oddly indented block strings",
+ "C06": "the same kinds of strings in descriptions, defaults and directive arguments of a type-system profile document",
+ "C07": "caller-slices (base + each item cut into 1…7 sources held in a slice with spare capacity 0…3: loaded, loaded again, loaded after an append); kit items for parents arriving through two extensions and required arguments written first (187 items)",
+ "C08": "schema-switch (every profile document parsed once, validated against S1 and then against S1 without argument / input-field defaults, and the other way round: the second verdict is a fresh parse's); composite fields of nested list type",
+ "C09": "composite fields of type [[Pet!]!]! and [[[Result]]] with link selections",
+ "C10": "many-candidates (9 equally close candidates for type, field, argument, enum value, input field and directive names × every map-order policy)",
+ "C11": "operation validate-typename-everywhere (21 operations)",
+ "C13": "null, [], {}, [null], {k: null} defaults (22 literals)",
+ "C14": "12 list shapes (5 typed Go slices), 23 input-object variants",
+ "C15": "30 literals incl. an escape followed by raw non-ASCII text and text on the opening line of a block string",
+ "C16": "limits-profiles (the long profile documents of both grammars × every limit −2…N+2); one source pointer passed twice and three sources under one name through ParseSchemasWithLimit",
+ "C17": "every multi-source layout also with all sources under one name and with a first source called prelude.graphql; 5 item triples under all 720 orders",
+ "C18": "cross-parent-literals (schema S3: one literal given to two fields of one response name whose parents declare the argument at Float / Int, ID / String, input objects — all rule sets, pairs, leave-one-out); rule lists with two rules sharing a name",
+ "C19": "decorated meta fields (__typename with directives, __type, __schema) in the sibling triples (20 decorated selections)",
+ "C20": "every syntax / loading / validation input also from a source saved with a byte order mark",
+}
+for k, v in also8.items():
+    claimed[k]["technique"] += "; round 8: " + v
 checks = []
 for i in ids:
     if i in claimed:
